@@ -65,7 +65,12 @@ func Apply(doc, patch string, o Options) (r Res) {
 	if r.Panic != nil || r.DecodeErr != nil {
 		return r
 	}
-	r.Panic = ev.Safe(func() { r.Out, r.Err = p.ApplyIndentWithOptions([]byte(doc), o.Indent, o.JP()) })
+	jo := o.JP()
+	r.Panic = ev.Safe(func() { r.Out, r.Err = p.ApplyIndentWithOptions([]byte(doc), o.Indent, jo) })
+	if r.Panic == nil && *jo != *o.JP() {
+		// the caller's options value is an input like any other (C09): every check reports a write to it
+		r.Panic = fmt.Errorf("Apply modified the ApplyOptions value it was given: now %+v, was %+v", *jo, *o.JP())
+	}
 	return r
 }
 
